@@ -376,6 +376,17 @@ def run_item(item) -> common.Result:
                             continue  # not a valid value for the option's (new) type: legitimately ignored
                         if user_after_load.get(name) is None:
                             r.violation({"kind": "unmarked_entry_not_a_user_value", "change": change, "policy": policy}, f"{label0} file after {h0}: unmarked entry {name}={raw} is not a user value after load", case)
+                    if change == "none":
+                        # ... and the converse: an option that is a user value after loading the file had an EFFECTIVE user
+                        # value (set and visible) in the configuration that wrote it -- an inferred value stays inferred
+                        src = impl.replay_ops(fo, h0)
+                        for s_ in src.k.unique_defined_syms:
+                            if s_.choice is not None or not s_.nodes:
+                                continue
+                            effective = s_._user_value is not None and bool(s_.visibility)
+                            if user_after_load.get(s_.name) is not None and not effective:
+                                r.violation({"kind": "inferred_value_became_user_value", "policy": policy, "hidden": not s_.visibility, "type": impl.core().TYPE_TO_STR[s_.orig_type]},
+                                            f"{label0} file after {h0}: {s_.name} = {s_.str_value!r} was inferred when the file was written (user value {s_._user_value!r}, visible {bool(s_.visibility)}) but is a user value after loading it", case)
                     if rec != exp_mism:
                         r.violation({"kind": "mismatch_records", "change": change, "policy": policy, "missing": sorted(exp_mism - rec) != [], "extra": sorted(rec - exp_mism) != []},
                                     f"{label0} file after {h0}: mismatch records {sorted(rec)}, expected {sorted(exp_mism)}", case)
